@@ -175,6 +175,13 @@ def build_universe(seed, tier):
             u.mutant_pairs.append((a, b, k))
     # arrays whose items own heap memory in both modes (partially built arrays must be released on error and on panic)
     add(Array(Seq('bs', Str()), 3)); add(Array(Seq('vec', Seq('vec', Prim('u16'))), 2))
+    # witnesses of the recorded finding KF-C07-1 / KF-C12-1: an alignment unit that is not a power of two (3)
+    from universe import Range
+    w1 = Range('t', Array(Prim('u8'), 3)); w2 = Seq('vec', Range('t', Array(Prim('u8'), 3)))
+    for w in (w1, w2):
+        w.known = ('C07', 'C12')
+        if w.rust() not in seen:
+            seen.add(w.rust()); u.types.append(w)
     # generic arguments: phantom data of different types; all instances of one generic definition, pairwise
     ph = [add(Phantom(Prim('u8'))), add(Phantom(Prim('i8'))), add(Phantom(Str())), add(Seq('vec', Phantom(Prim('u8')))), add(Seq('vec', Phantom(Str())))]
     for (a, b) in ((ph[0], ph[1]), (ph[0], ph[2]), (ph[3], ph[4])):
